@@ -249,6 +249,10 @@ def timeline_corpus(tier, seed):
     add(dur("1s"), k_from, kf(T, "100%", [("x", "8.5")]), k_to)
     add(dur("1s"), k_to, k_50, k_from)
     add(dur("1s"), k_50, k_25f, k_to)
+    # positions below 1 % and above 99 %, counts that f32 cannot hold
+    add(dur("1s"), kf(T, "0.5%", [("x", "3.5")]), kf(T, "0.25%", [("y", "1.5")]), kf(T, "99.75%", [("x", "4.5")]), k_to)
+    add(dur("1s"), rep("16_777_217x"), k_to)
+    add(dur("1s"), rep("4294967294x"), k_from, k_to)
     # every repeatable element once more: the same field twice in one keyframe (the later setter wins), an empty keyframe,
     # each kind of argument given twice
     add(dur("1s"), k_from, kf(T, "to", [("x", "1.5"), ("y", "2.5"), ("x", "8.5")]))
@@ -420,6 +424,10 @@ def animator_corpus(tier, seed):
     # unmentioned states / no arms at all / trailing comma variants are grammar-level only
     C.append({"defaults": {"state": "St::A", "values": ("inline", [("n", "9")])}, "arms": []})
     C.append({"defaults": None, "arms": [arm(["St::A"], [tl(k_to)]), arm(["St::A"], [tl(dur("2s"), k_to2)])]})  # same state twice: last wins
+    C.append({"defaults": {"state": "St::B", "values": ("inline", [("x", "2.5")])},
+              "arms": [arm(["St::A"], [tl(dur("1s"), kf(T, "0.5%", [("x", "0.5")]), k_to)]),
+                       arm(["St::B", "St::C"], [tl(dur("2s"), rep("16_777_217x"), k_def50, kf(T, "0.9%", [("y", "1.5")])),
+                                                tl(dur("750ms"), delay("after 0.5s"), k_to2)])]})
     # a shared arm refined by a later arm for one of its states (the later one wins for that state only)
     C.append({"defaults": {"state": "St::A", "values": None},
               "arms": [arm(["St::A", "St::B", "St::C"], [tl(dur("4s"), k_def)]), arm(["St::C"], [tl(dur("2s"), k_to2)])]})
